@@ -618,3 +618,13 @@ func tail(s []string, n int) []string {
 	}
 	return s
 }
+
+// hasProp: a harness may serve several properties (//verif:prop C02,C03).
+func (h *HarnessSpec) hasProp(p string) bool {
+	for _, x := range strings.Split(h.Prop, ",") {
+		if strings.TrimSpace(x) == p {
+			return true
+		}
+	}
+	return false
+}
